@@ -443,6 +443,9 @@ def families(tier):
     from .c16 import ops_alphabet
     ops = [o for o in ops_alphabet() if o[0] in ('setitem', 'setslice', 'insert', 'delitem')]
     fams.append(('after-mutation', 'vf.props.c16', 'fam_path_history', {'k': 1, 'first_ops': ops, 'prequery': True}))
+    # the same with T2t(T) and point(T) observed before and after the edit (stale per-segment fractions), incl. start=/end=
+    ops_T = [o for o in ops_alphabet() if o[0] in ('setitem', 'start=', 'end=')]
+    fams.append(('after-mutation-Tt', 'vf.props.c16', 'fam_path_history', {'k': 1, 'first_ops': ops_T, 'prequery': True, 'with_T': True}))
     # T2t/point of a reversed() copy of a path whose lengths are cached, and of the original afterwards: shared with C09
     for n in (2, 3):
         fams.append(('reversed-after-query-n%d' % n, 'vf.props.c09', 'fam_reversed_after_query', {'n': n}))
